@@ -8,8 +8,8 @@ from __future__ import annotations
 
 from vfw.choose import Chooser
 
-INT_KINDS = ["1", "2", "4", "8"]
-REAL_KINDS = ["4", "8"]
+INT_KINDS = ["1", "2", "4", "8", "selected_int_kind(9)", "merge(4, 8, 1 < 2)"]
+REAL_KINDS = ["4", "8", "selected_real_kind(6, 37)", "kind(1.0d0)"]
 ARG_SIG_TYPES = [  # distinguishable single-argument signatures for generic resolution
     {"base": "integer", "kind": None}, {"base": "real", "kind": None}, {"base": "logical", "kind": None},
     {"base": "complex", "kind": None}, {"base": "character", "len": "*", "kind": None},
@@ -86,7 +86,7 @@ class Gen:
             return ch.choice(["0", "1", "42", "2*3", "(1+2)*3", "huge(1)", "10**2"])
         if base == "real":
             k = ts.get("kind")
-            if k and not k.isdigit():
+            if k and not k.isdigit() and k.isidentifier():        # (a kind suffix is a digit string or a named constant)
                 return ch.choice([f"1.0_{k}", f"0.5_{k}"])
             return ch.choice(["0.0", "1.5", "1.0e-3", "3.14159", "2.0*3.0"])
         if base == "double precision":
